@@ -60,7 +60,10 @@ class _enroll:
     params = {"self": OBJ(f"{SS}:Stream")}
     modifies = ["self.enrolled", "self.flow.data"]
 
-    def requires(e): return stream_ready(e.self)
+    def requires(e):
+        # C03 (the options row comes first): a stream that has not written its options row yet has nothing buffered -
+        # so no row can get in front of it
+        return And(stream_ready(e.self), Implies(Not(e.self.enrolled), flow_len(e.self.flow) == 0))
 
     def lists(e):
         old_items = list(e.old.self.flow.data.items)
@@ -161,7 +164,8 @@ STMT_MOD = ["stream.encoder.names", "stream.encoder.prefixes", "stream.encoder.d
 
 def _frames_pre(e):
     S = e.stream
-    return And(wf_te(S.encoder), stream_ready(S), bounded_ok(S))
+    # a stream not yet enrolled is a new one: nothing buffered (Stream.__init__: `inferred-flow-starts-empty`)
+    return And(wf_te(S.encoder), stream_ready(S), bounded_ok(S), Implies(Not(S.enrolled), flow_len(S.flow) == 0))
 
 
 def _frames_post(e):
